@@ -2661,10 +2661,9 @@ class CaseExpr(ColExpr):
         elif Ftype.WINDOW in val_ftypes:
             self._ftype = Ftype.WINDOW
         else:
-            raise FunctionTypeError(
-                "incompatible function types found in case statement: , ".join(val_ftypes),
-                source=self._fn_id,
-            )
+            # element-wise and aggregated values (e.g. a grouping column and an aggregated
+            # column after `summarize`): same rule as for element-wise functions
+            self._ftype = Ftype.AGGREGATE
 
         # a window / aggregate function in a condition makes the result one, too
         if Ftype.WINDOW in cond_ftypes:
